@@ -704,7 +704,7 @@ static void run_raw(Prog& p, Cur& c, int max_items) {
         break;
       }
       case T_BULK: {
-        int n = 8 + int(a % (p.ctx && p.ctx->opts && p.ctx->opts->is_thorough() ? 300 : 90));
+        int n = 8 + int(a % 250);
         if (b & 1) {
           for (int i = 0; i < n; i++) {
             char nm[160]; snprintf(nm, sizeof nm, "bulk_%d%s", i, (cc & 1) ? "_padding_padding_padding_padding_padding_padding_padding_padding_padding_padding" : "");
@@ -1478,7 +1478,7 @@ static rc::Gen<std::vector<int64_t>> gen_items(int kind) {
     while (r >= w[t]) { r -= w[t]; t++; }
     return {t, *vh::irange<int>(0, 4095), *vh::irange<int>(0, 4095), *vh::irange<int>(0, 255)};
   });
-  return gen::map(gen::container<std::vector<std::array<int64_t, 4>>>(item), [](const std::vector<std::array<int64_t, 4>>& v) {
+  return gen::map(gen::scale(0.5, gen::container<std::vector<std::array<int64_t, 4>>>(item)), [](const std::vector<std::array<int64_t, 4>>& v) {
     std::vector<int64_t> out;
     for (auto& a : v) for (int64_t x : a) out.push_back(x);
     return out;
@@ -1524,7 +1524,8 @@ rc::Gen<vh::Case> vh_gen(const vh::Opts&) {
     int fstep = *vh::irange<int>(0, 2);
     int mix = *gen::weightedElement<int>({{7, 0}, {2, 1}, {2, 2}});
     c.cfg = {arch, kind, flags, fstep, mix, *vh::irange<int>(0, 4), *vh::irange<int>(0, 255), *vh::irange<int>(0, 3), *gen::weightedElement<int>({{5, 0}, {2, 1}, {1, 2}, {1, 3}}), *gen::weightedElement<int>({{5, 0}, {1, 1}, {1, 2}, {1, 3}})};
-    c.ops = *gen::container<std::vector<vh::Op>>(gen_hist_op(arch));
+    c.ops = *gen::scale(0.25, gen::container<std::vector<vh::Op>>(gen_hist_op(arch)));
+    if (*vh::irange<int>(0, 9) < 8) c.ops.insert(c.ops.begin(), *gen_gen_op(arch));   // most histories start with a generation
     // the final program: same emitter kind as cfg
     vh::Op fin = {2, kind, *gen::weightedElement<int>({{3, 0}, {2, 4}}), 0};
     std::vector<int64_t> items = *gen_items(kind);
